@@ -33,6 +33,12 @@
  *         secret line was stored, the block strdup() returned for it is passed to free() and does
  *         not contain any 12-byte piece of the secret at that moment.
  *
+ * --deep (given by ./check to the thorough tier only; implies the thorough alphabets): hash <= 6 updates from the 9
+ * lengths; aes 16 keys, 0..5 encryptions; aesctr <= 6 operations from {stream(1|15|16|17|31|32|33|40|100 bytes),
+ * init2(NULL, nonce'), init2(key', nonce'')}; dh 14 private x 10 blinding (+ entropy failure) x 6 peer values and every
+ * single OpenSSL allocation failure for every private value x {r#0, r = x, r#1, entropy failure} x 3 ops; keys: files of
+ * <= 7 lines.  Replay records carry "deep":1 because the aesctr/dh indices then refer to the larger alphabets.
+ *
  * Seams: -Wl,--wrap=free,strdup (frees made by libcperciva objects), CRYPTO_set_mem_functions
  * (frees made inside libcrypto), link-time replacement of crypto_entropy_read and fopen.
  *
@@ -73,6 +79,9 @@ void verif_wipe_aes_reset(void);
 void verif_wipe_aesctr_reset(void);
 size_t verif_wipe_aesctr_size(void);
 extern int cpusupport_x86_aesni_present_1, cpusupport_x86_aesni_init_1;
+
+static int deep;			/* --deep: bounds beyond the thorough ones (header) */
+static const char * DEEPJ = "";	/* "\"deep\":1," in replay records of a deep run */
 
 static void
 lcg_fill(uint8_t * buf, size_t len, uint64_t seed)
@@ -286,17 +295,18 @@ static const int UPD_T[] = { 0, 1, 55, 56, 63, 64, 65, 100, 128 };
 #define NEL(a) ((int)(sizeof(a) / sizeof((a)[0])))
 static int nupdlen(void) { return vf_tier ? NEL(UPD_T) : NEL(UPD_Q); }
 static int updlen(int i) { return (vf_tier ? UPD_T : UPD_Q)[i]; }
-static int maxupd(void) { return vf_tier ? 5 : 4; }
+#define MAXUPD 6
+static int maxupd(void) { return deep ? MAXUPD : vf_tier ? 5 : 4; }
 static uint8_t MSG[512];
 
 #define FINALISED 0xff
-struct hstate { uint8_t alg, key, nupd, upd[5]; union { uint8_t b[224]; uint64_t align; } ctx; };
+struct hstate { uint8_t alg, key, nupd, upd[MAXUPD], zero_[13 - MAXUPD]; /* no padding before ctx: states are compared as bytes */ union { uint8_t b[224]; uint64_t align; } ctx; };
 
 static void
 hash_replay_json(const struct hstate * s, char * out, size_t n)
 {
 	size_t o; int i, k = s->nupd == FINALISED ? 0 : s->nupd;
-	o = (size_t)snprintf(out, n, "{\"sec\":\"hash\",\"tier\":%d,\"alg\":%d,\"key\":%d,\"upd\":[", vf_tier, s->alg, s->key);
+	o = (size_t)snprintf(out, n, "{\"sec\":\"hash\",\"tier\":%d,%s\"alg\":%d,\"key\":%d,\"upd\":[", vf_tier, DEEPJ, s->alg, s->key);
 	for (i = 0; i < k; i++) o += (size_t)snprintf(out + o, n - o, "%s%d", i ? "," : "", s->upd[i]);
 	snprintf(out + o, n - o, "]}");
 }
@@ -373,7 +383,7 @@ replay_hash(const char * js)
 	hash_initial(&st, alg, key);
 	if ((p = strstr(js, "\"upd\":[")) != NULL) {
 		p += 7;
-		while (*p && *p != ']' && st.nupd < 5) {
+		while (*p && *p != ']' && st.nupd < MAXUPD) {
 			i = atoi(p); if (i < 0 || i >= nupdlen()) vf_engine_error("bad replay");
 			HALG[alg].update(st.ctx.b, MSG + 13 * st.nupd + i, (size_t)updlen(i));
 			st.upd[st.nupd++] = (uint8_t)i;
@@ -414,6 +424,7 @@ aes_patterns(const uint8_t * key, size_t klen, uint8_t rk[240])
 	return nr;
 }
 
+static uint8_t INBUF[512];
 static const uint8_t PT[48] = "0123456789abcdefFEDCBA9876543210-+-+-+-+-+-+-+-";
 
 /* One history: expand, n encryptions, free. Returns 1 on violation. */
@@ -422,7 +433,7 @@ aes_history(int path, int klen, int keyseed, int nenc)
 {
 	uint8_t key[32], rk[240], out[16], want[16]; struct crypto_aes_key * k; char rj[200], sig[96]; int nr, i, found = 0, bad = 0; size_t bsz;
 
-	snprintf(rj, sizeof(rj), "{\"sec\":\"aes\",\"tier\":%d,\"path\":%d,\"klen\":%d,\"key\":%d,\"enc\":%d}", vf_tier, path, klen, keyseed, nenc);
+	snprintf(rj, sizeof(rj), "{\"sec\":\"aes\",\"tier\":%d,%s\"path\":%d,\"klen\":%d,\"key\":%d,\"enc\":%d}", vf_tier, DEEPJ, path, klen, keyseed, nenc);
 	vf_setcase("%s", rj);
 	lcg_fill(key, (size_t)klen, 500 + (uint64_t)keyseed);
 	pat_reset();
@@ -430,8 +441,9 @@ aes_history(int path, int klen, int keyseed, int nenc)
 	if ((k = crypto_aes_key_expand(key, (size_t)klen)) == NULL) vf_engine_error("crypto_aes_key_expand failed");
 	vf_count("aes.transitions", 1); vf_count("aes.states", 1);
 	for (i = 0; i < nenc; i++) {
-		crypto_aes_encrypt_block(PT + 16 * i, out, k);
-		aes_ref_encrypt(rk, nr, PT + 16 * i, want);
+		const uint8_t * pt = i < 3 ? PT + 16 * i : INBUF + 16 * i;	/* PT holds three blocks; deep histories go on in INBUF */
+		crypto_aes_encrypt_block(pt, out, k);
+		aes_ref_encrypt(rk, nr, pt, want);
 		vf_count("aes.transitions", 1); vf_count("aes.states", 1);
 		if (memcmp(out, want, 16)) vf_engine_error("AES block differs from the reference: the reference key schedule is not the one in use (property C02 decides this)");
 	}
@@ -449,8 +461,8 @@ aes_history(int path, int klen, int keyseed, int nenc)
 	if (vf_verbose) printf("aes %s key %d bytes, %d encryptions, free: block %s, %d hits\n", PATHNAME[path], klen, nenc, watch_freed ? "seen in free()" : "NOT freed", hits);
 	return bad;
 }
-static int nkeys(void) { return vf_tier ? 6 : 2; }
-static int maxenc(void) { return vf_tier ? 3 : 2; }
+static int nkeys(void) { return deep ? 16 : vf_tier ? 6 : 2; }
+static int maxenc(void) { return deep ? 5 : vf_tier ? 3 : 2; }
 static void
 unit_aes(uint64_t u)
 {
@@ -463,11 +475,11 @@ unit_aes(uint64_t u)
 /* ===================================================================== AES-CTR */
 static const int STREAMLEN_Q[] = { 1, 15, 16, 17, 40 };
 static const int STREAMLEN_T[] = { 1, 15, 16, 17, 32, 40, 100 };
-static int nstream(void) { return vf_tier ? NEL(STREAMLEN_T) : NEL(STREAMLEN_Q); }
-static int streamlen(int i) { return (vf_tier ? STREAMLEN_T : STREAMLEN_Q)[i]; }
+static const int STREAMLEN_D[] = { 1, 15, 16, 17, 31, 32, 33, 40, 100 };
+static int nstream(void) { return deep ? NEL(STREAMLEN_D) : vf_tier ? NEL(STREAMLEN_T) : NEL(STREAMLEN_Q); }
+static int streamlen(int i) { return (deep ? STREAMLEN_D : vf_tier ? STREAMLEN_T : STREAMLEN_Q)[i]; }
 static int nctrops(void) { return nstream() + 2; }
-static int maxctrops(void) { return vf_tier ? 5 : 4; }
-static uint8_t INBUF[512];
+static int maxctrops(void) { return deep ? 6 : vf_tier ? 5 : 4; }
 
 static void be64(uint8_t b[8], uint64_t v) { int i; for (i = 0; i < 8; i++) b[i] = (uint8_t)(v >> (56 - 8 * i)); }
 
@@ -478,7 +490,7 @@ ctr_history(int path, int klen, int start, int nonceseed, const int * ops, int n
 	uint8_t K[2][32], rk[2][240], nb[8], ctrblk[16], ks[16], out[128], want[128]; int nr[2], i, j, bad = 0, curkey = 0, ksseen = 0;
 	struct crypto_aes_key * k[2]; struct crypto_aesctr * s; uint64_t nonce[3], curnonce, bytectr = 0; char rj[300], sig[96]; size_t o, bsz;
 
-	o = (size_t)snprintf(rj, sizeof(rj), "{\"sec\":\"ctr\",\"tier\":%d,\"path\":%d,\"klen\":%d,\"start\":%d,\"nonce\":%d,\"ops\":[", vf_tier, path, klen, start, nonceseed);
+	o = (size_t)snprintf(rj, sizeof(rj), "{\"sec\":\"ctr\",\"tier\":%d,%s\"path\":%d,\"klen\":%d,\"start\":%d,\"nonce\":%d,\"ops\":[", vf_tier, DEEPJ, path, klen, start, nonceseed);
 	for (i = 0; i < nops; i++) o += (size_t)snprintf(rj + o, sizeof(rj) - o, "%s%d", i ? "," : "", ops[i]);
 	snprintf(rj + o, sizeof(rj) - o, "]}");
 	vf_setcase("%s", rj);
@@ -555,7 +567,7 @@ unit_ctr(uint64_t u)
 }
 
 /* ===================================================================== Diffie-Hellman */
-static uint8_t DHX[8][32], DHR[8][32], DHY[4][256]; static int ndhx, ndhr, ndhy;
+static uint8_t DHX[16][32], DHR[12][32], DHY[8][256]; static int ndhx, ndhr, ndhy;
 static uint8_t PUB[4][256];	/* public material for limb eligibility */
 
 static void
@@ -570,17 +582,22 @@ build_dh_alphabet(void)
 	lcg_fill(DHX[i++] + 16, 16, 802);			/* 16 leading zero bytes */
 	lcg_fill(DHX[i++], 16, 803);				/* low limbs zero */
 	if (vf_tier) { lcg_fill(DHX[i++], 32, 804); lcg_fill(DHX[i] + 1, 31, 805); i++; lcg_fill(DHX[i], 32, 806); memset(DHX[i] + 8, 0xff, 8); i++; lcg_fill(DHX[i++] + 24, 8, 807); lcg_fill(DHX[i++], 32, 808); }
+	if (deep) { lcg_fill(DHX[i++], 32, 809); lcg_fill(DHX[i++], 32, 810); lcg_fill(DHX[i++], 32, 811); lcg_fill(DHX[i++], 32, 812);
+		lcg_fill(DHX[i++], 8, 813);			/* only the top limb is non-zero */
+		lcg_fill(DHX[i++] + 8, 16, 814); }		/* only the two middle limbs */
 	ndhx = i;
 	i = 0;
 	lcg_fill(DHR[i++], 32, 901);
 	lcg_fill(DHR[i++] + 8, 24, 902);
 	i++;							/* index 2: r = x (filled per case) */
 	if (vf_tier) { lcg_fill(DHR[i++], 32, 903); lcg_fill(DHR[i++], 24, 904); lcg_fill(DHR[i++], 32, 905); }
+	if (deep) { lcg_fill(DHR[i++], 32, 906); lcg_fill(DHR[i++], 32, 907); lcg_fill(DHR[i++] + 16, 16, 908); lcg_fill(DHR[i++], 32, 909); }
 	ndhr = i;						/* index ndhr: entropy failure */
 	i = 0;
 	lcg_fill(DHY[i++], 256, 1001);
 	memcpy(DHY[i], crypto_dh_group14, 256); DHY[i][255] -= 1; i++;	/* p - 1 */
 	if (vf_tier) { DHY[i][127] = 1; i++; lcg_fill(DHY[i++] + 100, 156, 1002); }
+	if (deep) { lcg_fill(DHY[i++], 256, 1003); DHY[i][255] = 2; i++; }
 	ndhy = i;
 }
 
@@ -616,7 +633,7 @@ dh_call(int op, int xi, int ri, int yi, long failk, long * nallocs)
 	uint8_t x[32], r[32], d[32], out[256], priv[32]; const uint8_t * y = NULL; int rfail = (ri == ndhr), rc, i, bad = 0, nx, nr_ = 0, nd = 0, borrow = 0;
 	char rj[200], sig[128]; static const char * const OPN[3] = { "generate_pub", "compute", "generate" };
 
-	snprintf(rj, sizeof(rj), "{\"sec\":\"dh\",\"tier\":%d,\"op\":%d,\"x\":%d,\"r\":%d,\"y\":%d,\"fail\":%ld}", vf_tier, op, xi, ri, yi, failk);
+	snprintf(rj, sizeof(rj), "{\"sec\":\"dh\",\"tier\":%d,%s\"op\":%d,\"x\":%d,\"r\":%d,\"y\":%d,\"fail\":%ld}", vf_tier, DEEPJ, op, xi, ri, yi, failk);
 	vf_setcase("%s", rj);
 	memcpy(x, DHX[xi], 32);
 	if (!rfail) { if (ri == 2) memcpy(r, x, 32); else memcpy(r, DHR[ri], 32); } else memset(r, 0, 32);
@@ -667,16 +684,17 @@ unit_dh(uint64_t u)
 	dh_call(op, xi, ri, yi, 0, NULL);
 	if (xi == 0 && ri == 0 && yi == 0) vf_sample("dh op %d, x#0, r#0: every block freed by OpenSSL during the call scanned for the limbs of x, r, x-r: none; all of them seen live before", op);
 }
-/* fault injection: unit = op, private value, blinding in {#0, r = x}, k (the k-th OpenSSL allocation of the call fails) */
+/* fault injection: unit = op, private value, blinding in {#0, r = x} (deep: and #1, entropy failure), k (the k-th OpenSSL allocation of the call fails) */
 static long dh_nallocs[3], dh_maxallocs;
 static int nfaultx(void) { return ndhx; }
+static int nfaultr(void) { return deep ? 4 : 2; }
 static void
 unit_dh_fault(uint64_t u)
 {
 	int op = (int)(u % 3), xi, rsel; long k;
-	u /= 3; xi = (int)(u % (uint64_t)nfaultx()); u /= (uint64_t)nfaultx(); rsel = (int)(u % 2); k = (long)(u / 2) + 1;
+	u /= 3; xi = (int)(u % (uint64_t)nfaultx()); u /= (uint64_t)nfaultx(); rsel = (int)(u % (uint64_t)nfaultr()); k = (long)(u / (uint64_t)nfaultr()) + 1;
 	if (k > dh_nallocs[op] + 4) return;	/* other values may need a few allocations more than the probed (x#0, r#0) */
-	dh_call(op, xi, rsel ? 2 : 0, 0, k, NULL);
+	dh_call(op, xi, rsel == 0 ? 0 : rsel == 1 ? 2 : rsel == 2 ? 1 : ndhr, 0, k, NULL);
 	vf_count("dh.fault_traces", 1);
 }
 
@@ -698,14 +716,14 @@ build_lines(void)
 	snprintf(LINES[L_NOEOL], 96, "ACCESS_KEY_ID=AKIANOEOL");
 	nlines = 8;
 }
-static int maxlines(void) { return 4; }
+static int maxlines(void) { return deep ? 7 : 4; }
 
 static int
 keys_history(const int * ln, int n, int err_at_end)
 {
 	char file[512], rj[200], sig[96]; size_t o = 0; int i, rc, bad = 0; char * id = NULL, * sec = NULL;
 
-	o = (size_t)snprintf(rj, sizeof(rj), "{\"sec\":\"keys\",\"tier\":%d,\"end\":%d,\"lines\":[", vf_tier, err_at_end);
+	o = (size_t)snprintf(rj, sizeof(rj), "{\"sec\":\"keys\",\"tier\":%d,%s\"end\":%d,\"lines\":[", vf_tier, DEEPJ, err_at_end);
 	for (i = 0; i < n; i++) o += (size_t)snprintf(rj + o, sizeof(rj) - o, "%s%d", i ? "," : "", ln[i]);
 	snprintf(rj + o, sizeof(rj) - o, "]}");
 	vf_setcase("%s", rj);
@@ -802,7 +820,9 @@ main(int argc, char ** argv)
 	vf_init(&argc, argv, "h_wipe");
 	if (!hooks) vf_engine_error("CRYPTO_set_mem_functions refused the hooks (OpenSSL had already allocated)");
 	if (sizeof(BN_ULONG) != 8) vf_engine_error("BN_ULONG is not 64 bits: limb patterns would not match");
-	if (vf_replay) { vf_replay = unescape_replay(vf_replay); vf_tier = jint(vf_replay, "tier", vf_tier); }
+	for (i = 1; i < argc; i++) if (!strcmp(argv[i], "--deep")) deep = 1;
+	if (vf_replay) { vf_replay = unescape_replay(vf_replay); vf_tier = jint(vf_replay, "tier", vf_tier); deep = jint(vf_replay, "deep", deep); }
+	if (deep) { vf_tier = 1; DEEPJ = "\"deep\":1,"; }	/* deep extends the thorough alphabets */
 	if ((st = aes_ref_selftest()) != 0) vf_engine_error("aes_ks_ref self-test failed at step %d", st);
 	for (i = 0; i < (int)sizeof(MSG); i++) MSG[i] = (uint8_t)(i * 37 + 11);
 	for (i = 0; i < (int)sizeof(INBUF); i++) INBUF[i] = (uint8_t)(i * 73 + 5);
@@ -816,8 +836,8 @@ main(int argc, char ** argv)
 	{ uint8_t o[256]; memset(&ent, 0, sizeof(ent)); ent.n = 1; lcg_fill(ent.data[0], 32, 1); if (crypto_dh_generate_pub(o, DHX[0])) vf_engine_error("warm-up crypto_dh_generate_pub failed"); }
 	memcpy(PUB[0], crypto_dh_group14, 256); reverse(PUB[1], crypto_dh_group14, 256);
 	vf_info("bounds", "hash: 6 algorithms, <=%d updates from %d lengths, 5 HMAC key lengths; aes: 2 paths x {16,32} x %d keys x 0..%d encryptions; aesctr: 2 paths x {16,32} x 2 starts x 2 nonce sets x <=%d ops from %d; "
-	    "dh: 3 ops x %d private x %d blinding (+failure) x %d peers, + every single OpenSSL allocation failure for %d private values x {r#0, r=x} x 3 ops; keys: files of <=%d lines from %d kinds x {EOF, read error}",
-	    maxupd(), nupdlen(), nkeys(), maxenc(), maxctrops(), nctrops(), ndhx, ndhr, ndhy, nfaultx(), maxlines(), nlines);
+	    "dh: 3 ops x %d private x %d blinding (+failure) x %d peers, + every single OpenSSL allocation failure for %d private values x %s x 3 ops; keys: files of <=%d lines from %d kinds x {EOF, read error}",
+	    maxupd(), nupdlen(), nkeys(), maxenc(), maxctrops(), nctrops(), ndhx, ndhr, ndhy, nfaultx(), deep ? "{r#0, r=x, r#1, entropy failure}" : "{r#0, r=x}", maxlines(), nlines);
 	if (vf_replay) {
 		int bad = do_replay(vf_replay);
 		printf("replay: %s\n", bad ? "property violated" : "holds");
@@ -844,7 +864,7 @@ main(int argc, char ** argv)
 	  dh_maxallocs = mx + 4;
 	}
 	vf_parallel((uint64_t)(3 * ndhx * (ndhr + 1) * ndhy), unit_dh);
-	vf_parallel((uint64_t)(3 * nfaultx() * 2) * (uint64_t)dh_maxallocs, unit_dh_fault);
+	vf_parallel((uint64_t)(3 * nfaultx() * nfaultr()) * (uint64_t)dh_maxallocs, unit_dh_fault);
 	if (!vf_deadline_hit()) vf_setmax("dh.exhaustive", 1);
 	vf_parallel((uint64_t)(2 * (nlines + 1)), unit_keys);
 	if (!vf_deadline_hit()) vf_setmax("keys.exhaustive", 1);
